@@ -197,6 +197,9 @@ class QuadratureRule(object):
         except ValueError:
             return epsilon
         D3 = -prec
+        if not D2:
+            # |I_k - I_(k-2)| = 1 exactly: no convergence yet
+            return self.ctx.one
         D4 = min(0, max(D1**2/D2, 2*D1, D3))
         return self.ctx.mpf(10) ** int(D4)
 
